@@ -144,6 +144,8 @@ def make_design(prim, params: dict, label: str, variant: dict = None):
     conns = {p: leaf.add(h.Port(width=port.width), name=p) for p, port in call.ports.items()}
     leaf.add(h.Instance(of=call)(**conns), name="x")
     leaf.add(h.Instance(of=prim(**params))(**conns), name="y")  # equal parameters, separately constructed call
+    leaf.add(h.Instance(of=call)(**conns), name="x2")  # the SAME call object as `x`
+    leaf.add(h.InstanceArray(call, 2)(**conns), name="xa")  # ... and an array of it
     if variant:  # the same device and size, but other fingers / multiplier
         leaf.add(h.Instance(of=prim(**{**params, **variant}))(**conns), name="z")
     leaf.add(h.Instance(of=h.R(r=11))(p=list(conns.values())[0], n=list(conns.values())[-1]), name="rkeep")
@@ -246,6 +248,12 @@ def judge_device(rec, pname, P, entry, sizes):
     if x.of.module is not mod:
         rec.violation("wrong-device-selected", f"[{label}] compile selected {x.of.module.name}, the table entry {model or key} is {mod.name}",
                       case=case, pdk=pname, device_kind=kind)
+    # every instance of the mapped primitive is replaced - also those sharing one call object with another instance, and arrays
+    for nm in ("x2", "xa_0", "xa_1", "xa"):
+        holder = leaf.instances.get(nm) or leaf.instarrays.get(nm)
+        if holder is not None and not (isinstance(holder.of, h.ExternalModuleCall) and holder.of.module is x.of.module):
+            rec.violation("mapped-primitive-not-replaced", f"[{label}] instance '{nm}', which shares its call object with 'x', was left as "
+                                                           f"{getattr(holder.of, 'name', None) or type(holder.of).__name__}", case=case, pdk=pname)
     # equal parameters give the same device call
     if not same_value(x.of, y.of):
         rec.violation("equal-params-different-calls", f"[{label}] two instances with equal primitive parameters got different device calls", case=case, pdk=pname)
@@ -364,6 +372,55 @@ def judge_triples(rec, pname, P):
     _walk["label"] = _walk["case"] = None
 
 
+def judge_triple_then_model(rec, pname, P):
+    """Within ONE compile: a Mos selected by type/family/threshold alone comes first, then Mos instances selected by model name whose
+    table keys carry the same triple.  The by-model instances must get exactly their model's device."""
+    import hdl21 as h
+    from hdl21.primitives import Mos, MosType, MosFamily, MosVth
+
+    mos = [e for e in P["table"] if e[0] == "mos" and e[1] is not None and len(e[3].port_list) == 4]
+    groups = {}
+    for e in mos:
+        kv = {type(k): k for k in e[2] if not isinstance(k, str)}
+        trip = (kv.get(MosType), kv.get(MosFamily), kv.get(MosVth))
+        groups.setdefault(trip, []).append(e)
+    groups[(None, None, None)] = mos  # a Mos with no parameters at all first, then every model of the table
+    for trip, entries in groups.items():
+        label = f"{pname}:triple-then-model:{[getattr(t, 'name', None) for t in trip]}"
+        case = {"kind": "triple-then-model", "pdk": pname, "triple": [getattr(t, "name", None) for t in trip]}
+        rec.case(key=label, nontrivial=True, sample=case if rec.evaluations % 40 == 3 else None)
+        rec.count("triple-then-model.checked")
+        _walk["label"], _walk["case"] = label, case
+        for order in ("triple-first", "model-first"):
+            n = next(_uid)
+            m = h.Module(name=f"TtM{n}")
+            ports = {p: m.add(h.Port(), name=p) for p in ("d", "g", "s", "b")}
+            tparams = {k: v for k, v in zip(("tp", "family", "vth"), trip) if v is not None}
+            if order == "triple-first":
+                m.add(Mos(**tparams)(**ports), name="t0")
+            for k, e in enumerate(entries):
+                # by model name; every other one also states the type / family / threshold its table key carries
+                m.add(Mos(model=e[1], **(tparams if k % 2 == 0 else {}))(**ports), name=f"m{k}")
+            if order == "model-first":
+                m.add(Mos(**tparams)(**ports), name="t0")
+            try:
+                P["compile"](m)
+            except Exception as e:
+                if not is_descriptive(e):
+                    rec.violation(f"selection-raises-undescriptive:{type(e).__name__}", f"[{label}] {type(e).__name__}: {str(e)[:60]!r}", case=case, pdk=pname,
+                                  satisfiable=True)
+                rec.count("triple-then-model.triple-refused")
+                continue
+            for k, e in enumerate(entries):
+                got = m.instances[f"m{k}"].of
+                if not isinstance(got, h.ExternalModuleCall) or got.module is not e[3]:
+                    rec.violation("wrong-device-selected", f"[{label}, {order}] Mos(model={e[1]!r}) compiled to "
+                                                           f"{got.module.name if isinstance(got, h.ExternalModuleCall) else 'nothing'}, the table entry is {e[3].name}",
+                                  case=case, pdk=pname, device_kind="mos")
+                    break
+    _walk["label"] = _walk["case"] = None
+
+
 def judge_bogus_models(rec, pname, P):
     """A model name no device of the PDK carries - truncated, partial, re-cased, extended, empty - is a request no device satisfies."""
     import hdl21 as h
@@ -463,7 +520,7 @@ def judge_compile_forms(rec, allp):
     saved = (set(mgr.modules), dict(mgr.names), mgr.default)
     try:
         P = allp["sample"]
-        for form in ("by-module", "by-name", "default-single", "default-set", "default-ambiguous"):
+        for form in ("by-module", "by-name", "default-single", "default-set", "default-ambiguous", "single-then-second"):
             rec.count("pdk-compile-forms.checked")
             case = {"kind": "compile-form", "form": form}
             rec.case(key=f"form:{form}", nontrivial=True, sample=case)
@@ -486,6 +543,26 @@ def judge_compile_forms(rec, allp):
                         hp.register(q["regmod"])
                     hp.set_default(P["regmod"])
                     hp.compile(top)
+                elif form == "single-then-second":
+                    # one PDK registered and used by default; then a second one is registered (imported): the default is ambiguous
+                    # from then on.  (Only the public register / compile API between the two compiles.)
+                    mgr.modules.clear()
+                    mgr.names.clear()
+                    mgr.default = None
+                    hp.register(P["regmod"])
+                    hp.compile(top)
+                    if not isinstance(leaf.instances["x"].of, h.ExternalModuleCall):
+                        rec.violation("pdk-compile-form-no-effect:default-single", "hdl21.pdk.compile (sole registered PDK) did not compile the design", case=case, form=form)
+                    hp.register(allp["asap7"]["regmod"])
+                    top2, leaf2 = design()
+                    try:
+                        hp.compile(top2)
+                        rec.violation("ambiguous-default-accepted", "hdl21.pdk.compile without a pdk compiled although a second PDK had been registered "
+                                                                    "after the first default compile and no default is set", case=case)
+                    except Exception as e:
+                        if not is_descriptive(e):
+                            rec.violation(f"ambiguous-default-undescriptive:{type(e).__name__}", f"{type(e).__name__}: {str(e)[:80]}", case=case)
+                    continue
                 else:
                     mgr.default = None
                     try:
@@ -570,6 +647,7 @@ def run(ctx, rec):
             judge_device(rec, w[1], allp[w[1]], w[2], w[3])
         elif w[0] == "bogus":
             judge_bogus_models(rec, w[1], allp[w[1]])
+            judge_triple_then_model(rec, w[1], allp[w[1]])
         elif w[0] == "same-named":
             judge_same_named(rec, w[1], allp[w[1]])
         else:
